@@ -708,42 +708,22 @@ func (o *FilterOptimizer) unionRange(l, r *ScanType) *ScanType {
 		return l
 	}
 
+	// The union of two ranges is covered by the range from the lower start
+	// to the higher end; an open side (nil) stays open.
 	var (
 		nstart []byte = nil
 		nend   []byte = nil
 	)
-
-	// | ^LS,RS | LE,RE$ |
-	// just use full scan instead
-	if lstart == nil && rstart == nil && lend == nil && rend == nil {
-		return &ScanType{FULL, nil}
-	}
-
-	if inRange(lstart, lend, rstart, false) && !inRange(lstart, lend, rend, true) {
-		// | LS | RS | LE | RE |
+	if lstart != nil && rstart != nil {
 		nstart = lstart
-		nend = rend
-	} else if inRange(rstart, rend, lstart, false) && !inRange(rstart, rend, lend, true) {
-		// | RS | LS | RE | LE |
-		nstart = rstart
-		nend = lend
-	} else if inRange(lstart, lend, rstart, false) && inRange(lstart, lend, rend, true) {
-		// | LS | RS | RE | LE |
-		nstart = lstart
-		nend = lend
-	} else if inRange(rstart, rend, lstart, false) && inRange(rstart, rend, lend, true) {
-		// | RS | LS | LE | RE |
-		nstart = rstart
-		nend = rend
-	} else if !inRange(lstart, lend, rstart, false) && !inRange(lstart, lend, rend, true) {
-		if inRange(lstart, rstart, lend, true) {
-			// | LS | LE | RS | RE |
-			nstart = lstart
-			nend = rend
-		} else if inRange(rstart, lstart, rend, true) {
-			// | RS | RE | LS | LE |
+		if bytes.Compare(rstart, lstart) < 0 {
 			nstart = rstart
-			nend = lend
+		}
+	}
+	if lend != nil && rend != nil {
+		nend = lend
+		if bytes.Compare(rend, lend) > 0 {
+			nend = rend
 		}
 	}
 
